@@ -455,3 +455,19 @@ def time_base_agreement(ck, S, rid):
               (strip_tmpl(f_.name).split("::")[-1], describe(n_.get("rhs") or n_["args"][1])[:40]), key="date-state|time-base")
     else:
         ck.ob(rid, sitestr(S.m["rotateIfNeeded"]), None if (unk and not bases) else True, "the %d assignments of the active file's day all take %s dates%s" % (len(uniq), "/".join(sorted(bases)) or "?", " (%d not classified)" % len(unk) if unk else ""), key="date-state|time-base")
+
+
+def reopened_after_close(ck, S, rid, consequence):
+    """rotate() closes the active file; every path out of it must have reopened it (an early return on a failed rename leaves the sink
+    writing to a closed device)"""
+    fn = S.m["rotate"]
+    g = S.g(fn)
+    closes = [n for n in fn.calls(("QFileDevice::close", "QFile::close", "QIODevice::close")) if S.is_active_file(n.get("obj"))]
+    opens = [n for n in fn.calls(("QFile::open", "QIODevice::open", "QFileDevice::open")) if S.is_active_file(n.get("obj"))]
+    if not closes or not opens:
+        ck.ob(rid, sitestr(fn), None if not closes else False, "rotate(): %d close / %d open of the active file" % (len(closes), len(opens)), key="rotate|no-reopen")
+        return
+    osites = set(g.sites_of_nodes(opens))
+    for c in closes:
+        ok = g.postdominated(g.site_of(c), osites)
+        ck.ob(rid, sitestr(fn, c), ok, "after close() every path reopens the active file" if ok else "a path leaves rotate() with the active file closed: %s" % consequence, key="rotate|no-reopen")
